@@ -1,6 +1,7 @@
 import PsV.Driver.Common
 import PsV.Driver.C04
 import PsV.Driver.Eval
+import PsV.Driver.C06
 open PsV.Driver
 
 def stateless (f : List String → String) : IO Unit := do
@@ -8,7 +9,8 @@ def stateless (f : List String → String) : IO Unit := do
 
 def drivers : List (String × IO Unit) :=
   [("C04", stateless C04.handle),
-   ("EV", Eval.run)]
+   ("EV", Eval.run),
+   ("C06", C06.run)]
 
 def main (args : List String) : IO UInt32 := do
   match args with
